@@ -166,11 +166,29 @@ package config
 //@   requires[an-absent-field-has-no-value] !exists ==> isNil(spanValue)
 //@   ensures[absent-field-never-matches] !exists ==> !result
 // the conversions used by the typed operators: nothing converts from an absent (nil) value
-//@ contract config.tryConvertToInt props C08
+//@ contract config.tryConvertToInt props C08,C09
 //@   arith wraps
 //@   ensures[nil-does-not-convert] isNil(v) ==> !result1
+// C09: the conversion depends on the number, not on the Go type the wire encoding produced for it
+//@   ensures[integers-convert-by-value-whatever-their-type@C09] (isInt64(v) || isInt(v) || isUint64(v)) && anyInt(v) <= 9223372036854775807 ==> result1 && result0 == anyInt(v)
+//@   ensures[floats-convert-whatever-their-width@C09] isFloat64(v) || isFloat32(v) ==> result1 && result0 == int(anyFloat(v))
 //@   modifies nothing
-//@ contract config.tryConvertToFloat props C08
+//@ contract config.tryConvertToFloat props C08,C09
 //@   arith wraps
 //@   ensures[nil-does-not-convert] isNil(v) ==> !result1
+//@   ensures[floats-convert-by-value-whatever-their-width@C09] isFloat64(v) || isFloat32(v) ==> result1 && result0 == anyFloat(v)
+//@   ensures[integers-convert-by-value-whatever-their-type@C09] (isInt64(v) || isInt(v) || isUint64(v)) && anyInt(v) <= 9223372036854775807 ==> result1 && result0 == float64(anyInt(v))
+//@   modifies nothing
+
+// ---- C09: the text a value is compared as (Datatype string, contains / starts-with / in / regexp operators) depends
+// on the number, not on the Go type the wire encoding produced for it: JSON numbers arrive as float64, msgpack
+// integers as int64 or uint64, msgpack floats as float32 or float64.
+//@ spec cfgIsNumeric(v any) bool := isInt64(v) || isInt(v) || isUint64(v) || isFloat64(v) || isFloat32(v)
+//@ spec cfgNumOf(v any) float64 := ite(isFloat64(v) || isFloat32(v), anyFloat(v), toReal(anyInt(v)))
+//@ contract config.convertToString props C09
+//@   arith math
+// integers up to 2^53 in magnitude are the ones a float64 carries exactly
+//@   domain[exactly-representable-integers] isInt64(v) || isInt(v) || isUint64(v) ==> -9007199254740992 <= anyInt(v) && anyInt(v) <= 9007199254740992
+//@   ensures[a-number-formats-by-value-whatever-its-type] cfgIsNumeric(v) ==> result == strconv.FormatFloat(cfgNumOf(v), 'f', -1, 64)
+//@   ensures[a-string-is-itself] isString(v) ==> result == anyString(v)
 //@   modifies nothing
